@@ -84,8 +84,12 @@ def run_rt_property(mod, tier, seed, replay=None):
     proof = vlib.prove(mod.PROP_V)
     # ---- build runner + harness from /repo's current tree
     runner, rerr = vlib.build_runner()
-    harness, herr, hdt = vlib.build_harness(mod.HARNESS, release=getattr(mod, "RELEASE", False),
-                                            features=getattr(mod, "FEATURES", None))
+    pre_broken = mod.pre() if hasattr(mod, "pre") else []
+    if hasattr(mod, "build_harness"):
+        harness, herr, hdt = mod.build_harness(tier)
+    else:
+        harness, herr, hdt = vlib.build_harness(mod.HARNESS, release=getattr(mod, "RELEASE", False),
+                                                features=getattr(mod, "FEATURES", None))
     if harness is None:
         # the tree does not build with the harness: the tie cannot be evaluated
         rp = vlib.write_replay(prop, seed, tier, "correspondence", {"error": herr[:3000], "what": "harness does not build against /repo"})
@@ -178,7 +182,7 @@ def run_rt_property(mod, tier, seed, replay=None):
 
     # ---- broken proof or correspondence without a failing input: search, then report
     if not out.violations:
-        broken = []
+        broken = [("correspondence", b) for b in pre_broken]
         if not proof["ok"]:
             broken.append(("proof-obligation", proof["reason"]))
         # mismatches that coincide with known-finding cases are not news
